@@ -253,3 +253,24 @@ pub fn events_digest() -> (u64, u64) {
         (e.0.finish(), e.2)
     })
 }
+
+// ---------------------------------------------------------------------------
+// Step-level breadcrumb: when a single run is re-executed after a worker death, the literal
+// scenario is written to disk before every step, so that an abort leaves a replay file behind.
+// ---------------------------------------------------------------------------
+
+thread_local! {
+    static STEP_CRUMB: RefCell<Option<std::path::PathBuf>> = const { RefCell::new(None) };
+}
+
+pub fn set_step_crumb(path: Option<std::path::PathBuf>) {
+    STEP_CRUMB.with(|c| *c.borrow_mut() = path);
+}
+
+pub fn step_crumb(make: impl FnOnce() -> String) {
+    STEP_CRUMB.with(|c| {
+        if let Some(p) = &*c.borrow() {
+            let _ = std::fs::write(p, make());
+        }
+    });
+}
